@@ -186,25 +186,35 @@ func instances(fa string, sks []skolem) []string {
 
 type skolem struct{ name, sort string }
 
-// skolemiseGoal strips leading universal quantifiers of the goal.
+// skolemiseGoal strips the universal quantifiers of the goal that are in positive position at its
+// head: leading ones, and those at the head of the consequent of an implication.
 func (vc *VC) skolemiseGoal(goal string) (string, []skolem, []string) {
 	var decls []string
 	var sks []skolem
-	g := goal
-	for {
-		bs, body, ok := parseForall(g)
-		if !ok {
-			break
+	var strip func(g string, depth int) string
+	strip = func(g string, depth int) string {
+		for {
+			bs, body, ok := parseForall(g)
+			if !ok {
+				break
+			}
+			for _, b := range bs {
+				vc.n++
+				n := fmt.Sprintf("sk!%d", vc.n)
+				decls = append(decls, "(declare-const "+n+" "+b.sort+")")
+				sks = append(sks, skolem{n, b.sort})
+				body = substVar(body, b.name, n)
+			}
+			g = body
 		}
-		for _, b := range bs {
-			vc.n++
-			n := fmt.Sprintf("sk!%d", vc.n)
-			decls = append(decls, "(declare-const "+n+" "+b.sort+")")
-			sks = append(sks, skolem{n, b.sort})
-			body = substVar(body, b.name, n)
+		if depth < 4 && strings.HasPrefix(g, "(=> ") {
+			if p := sexpList(g); len(p) == 3 && (strings.HasPrefix(p[2], "(forall ") || strings.HasPrefix(p[2], "(=> ")) {
+				return "(=> " + p[1] + " " + strip(p[2], depth+1) + ")"
+			}
 		}
-		g = body
+		return g
 	}
+	g := strip(goal, 0)
 	return g, sks, decls
 }
 
@@ -351,6 +361,38 @@ func forEachSelect(text string, f func(arr, idx string)) {
 	}
 }
 
+// keyKind tells what the keys of an array-valued term are: "r" (object references: field maps,
+// map contents, pointees, ghost maps) or "e" (positions in an element array). Both are SMT Int;
+// keeping them apart stops references being tried as positions and vice versa.
+func (vc *VC) keyKind(arr string) string {
+	arr = strings.TrimSpace(arr)
+	for depth := 0; depth < 8; depth++ {
+		switch {
+		case strings.HasPrefix(arr, "(select "):
+			return "e"
+		case strings.HasPrefix(arr, "(store "), strings.HasPrefix(arr, "(ite "):
+			p := sexpList(arr)
+			if len(p) < 3 {
+				return "e"
+			}
+			if p[0] == "store" {
+				arr = p[1]
+			} else {
+				arr = p[2]
+			}
+			continue
+		case strings.HasPrefix(arr, "H$"), strings.HasPrefix(arr, "MD$"), strings.HasPrefix(arr, "MV$"), strings.HasPrefix(arr, "P$"), strings.HasPrefix(arr, "G$"), strings.HasPrefix(arr, "E$"):
+			return "r"
+		}
+		if d, ok := vc.byName[arr]; ok && d.Body != "" && (strings.HasPrefix(arr, "m!") || strings.HasPrefix(d.Body, "(ite ") || strings.HasPrefix(d.Body, "(store ")) {
+			arr = d.Body
+			continue
+		}
+		return "e"
+	}
+	return "e"
+}
+
 // cancelSub builds (sub g off), simplified to t when g is syntactically (add off t) or (add t off).
 func cancelSub(sub, add, g, off string) string {
 	gp := sexpList(g)
@@ -380,10 +422,11 @@ func (vc *VC) termInstances(needed map[string]bool, hyps []string, goal string, 
 			if len(sp) != 3 || sp[0] != "Array" {
 				return
 			}
-			if ground[sp[1]] == nil {
-				ground[sp[1]] = map[string]bool{}
+			k := sp[1] + "/" + vc.keyKind(arr)
+			if ground[k] == nil {
+				ground[k] = map[string]bool{}
 			}
-			ground[sp[1]][idx] = true
+			ground[k][idx] = true
 		})
 	}
 	stripQ := func(body string) string {
@@ -436,7 +479,7 @@ func (vc *VC) termInstances(needed map[string]bool, hyps []string, goal string, 
 				if !strings.Contains(idx, b.name) {
 					return
 				}
-				for g := range ground[b.sort] {
+				for g := range ground[b.sort+"/"+vc.keyKind(arr)] {
 					switch {
 					case idx == b.name:
 						cands[g] = true
@@ -474,7 +517,7 @@ func (vc *VC) termInstances(needed map[string]bool, hyps []string, goal string, 
 			})
 			lim := 24
 			if len(bs) == 2 {
-				lim = 10
+				lim = 14
 			} else if len(bs) == 3 {
 				lim = 4
 			}
@@ -564,8 +607,8 @@ func (vc *VC) termInstances(needed map[string]bool, hyps []string, goal string, 
 				uniq = append(uniq, in)
 			}
 		}
-		if len(uniq) > 900 {
-			uniq = uniq[:900]
+		if len(uniq) > 1500 {
+			uniq = uniq[:1500]
 		}
 		out = uniq
 	}
